@@ -437,6 +437,200 @@ func ruleTableKey(c *Ctx) *RuleResult {
 	}
 	r.count("array_methods_with_index", nArr)
 	r.floor("array_methods_with_index", 4)
+
+	// (f) the array part owns the integer keys from 1 upwards: the smallest index each
+	// method accepts is read off its comparisons with constants. A method that accepts
+	// less than its siblings (next takes 0 for "before the first item") takes a
+	// sentinel, and a sentinel must not be producible from a key of the program: at
+	// each call the argument is that constant, or is proved to be at least the
+	// siblings' bound by the branch decisions on the way (per incoming edge of a phi,
+	// edges on which the call's own guard is known false being left out).
+	lower := map[*ssa.Function]int64{}
+	var idxParam = map[*ssa.Function]*ssa.Parameter{}
+	for _, f := range p.ModFuncs() {
+		if relPkg(funcPkgPath(f)) != "runtime" || f.Signature.Recv() == nil || f.Synthetic != "" || f.Blocks == nil {
+			continue
+		}
+		if _, tn, ok := namedOf(f.Signature.Recv().Type()); !ok || tn != "array" {
+			continue
+		}
+		var idx *ssa.Parameter
+		for _, prm := range f.Params[1:] {
+			if bt, ok := prm.Type().Underlying().(*types.Basic); ok && bt.Kind() == types.Int64 {
+				idx = prm
+				break
+			}
+		}
+		if idx == nil {
+			continue
+		}
+		found := false
+		var lb int64
+		forEachInstr(f, func(ins ssa.Instruction) {
+			b, ok := ins.(*ssa.BinOp)
+			if !ok {
+				return
+			}
+			var c int64
+			var okc bool
+			var bound int64
+			switch {
+			case stripConv(b.Y) == ssa.Value(idx):
+				if c, okc = constInt(stripConv(b.X)); !okc {
+					return
+				}
+				switch b.Op {
+				case token.LEQ: // c <= i
+					bound = c
+				case token.LSS: // c < i
+					bound = c + 1
+				default:
+					return
+				}
+			case stripConv(b.X) == ssa.Value(idx):
+				if c, okc = constInt(stripConv(b.Y)); !okc {
+					return
+				}
+				switch b.Op {
+				case token.GEQ: // i >= c
+					bound = c
+				case token.GTR: // i > c
+					bound = c + 1
+				default:
+					return
+				}
+			default:
+				return
+			}
+			if !found || bound < lb {
+				lb = bound
+			}
+			found = true
+		})
+		if found {
+			lower[f] = lb
+			idxParam[f] = idx
+		}
+	}
+	// the siblings' bound: the most common one
+	votes := map[int64]int{}
+	for _, lb := range lower {
+		votes[lb]++
+	}
+	var common int64
+	best := 0
+	for lb, n := range votes {
+		if n > best || (n == best && lb > common) {
+			common, best = lb, n
+		}
+	}
+	r.count("array_methods_with_lower_bound", len(lower))
+	r.floor("array_methods_with_lower_bound", 4)
+	provesAtLeast := func(facts []guardEdge, v ssa.Value, bound int64) bool {
+		for _, ge := range facts {
+			rel, ok := ge.Relation()
+			if !ok {
+				continue
+			}
+			a, b := stripConv(rel.A), stripConv(rel.B)
+			if a == v {
+				if c, ok := constInt(b); ok {
+					if (rel.Op == token.GTR && c+1 >= bound) || (rel.Op == token.GEQ && c >= bound) {
+						return true
+					}
+				}
+			}
+			if b == v {
+				if c, ok := constInt(a); ok {
+					if (rel.Op == token.LSS && c+1 >= bound) || (rel.Op == token.LEQ && c >= bound) {
+						return true
+					}
+				}
+			}
+		}
+		return false
+	}
+	nSent := 0
+	for f, lb := range lower {
+		if lb >= common {
+			continue
+		}
+		// f takes a sentinel below the siblings' bound
+		for _, g := range p.ModFuncs() {
+			if g.Blocks == nil {
+				continue
+			}
+			gc := newGuardCtx(g)
+			forEachInstr(g, func(ins ssa.Instruction) {
+				call, ok := ins.(ssa.CallInstruction)
+				if !ok || call.Common().StaticCallee() != f {
+					return
+				}
+				nSent++
+				args := call.Common().Args
+				var arg ssa.Value
+				for i, prm := range f.Params {
+					if prm == idxParam[f] && i < len(args) {
+						arg = stripConv(args[i])
+					}
+				}
+				if arg == nil {
+					r.broken("cannot locate the index argument of the call to %s in %s", fnKey(f), fnKey(g))
+					return
+				}
+				where := fmt.Sprintf("%s -> %s at %s", fnKey(g), fnKey(f), p.InstrPos(ins))
+				bad := ""
+				if c, ok := constInt(arg); ok {
+					if c < lb {
+						bad = fmt.Sprintf("constant %d below the method's own bound", c)
+					}
+				} else if phi, ok := arg.(*ssa.Phi); ok {
+					// guards of the call that are phis of the same block
+					var guardPhis []*ssa.Phi
+					for _, ge := range gc.MustEdges(ins.Block()) {
+						if gp, ok := ge.If.Cond.(*ssa.Phi); ok && gp.Block() == phi.Block() && ge.Taken {
+							guardPhis = append(guardPhis, gp)
+						}
+					}
+					for k, e := range phi.Edges {
+						ev := stripConv(e)
+						if c, ok := constInt(ev); ok && c >= lb {
+							continue
+						}
+						facts := gc.MustEdgesForEdge(phi.Block().Preds[k], phi.Block())
+						if provesAtLeast(facts, ev, common) {
+							continue
+						}
+						infeasible := false
+						for _, gp := range guardPhis {
+							w := gp.Edges[k]
+							for _, ge := range facts {
+								if ge.If.Cond == w && !ge.Taken {
+									infeasible = true
+								}
+							}
+							if cb, ok := w.(*ssa.Const); ok {
+								if v, ok := constInt(cb); ok && v == 0 {
+									infeasible = true
+								}
+							}
+						}
+						if !infeasible {
+							bad = fmt.Sprintf("the value arriving from block %d is not proved to be at least %d", phi.Block().Preds[k].Index, common)
+						}
+					}
+				} else if !provesAtLeast(gc.MustEdges(ins.Block()), arg, common) {
+					bad = fmt.Sprintf("the argument is not proved to be at least %d", common)
+				}
+				if bad == "" {
+					r.ok("(f) " + where + ": the argument is the sentinel constant or at least " + fmt.Sprint(common))
+				} else {
+					r.fail("array-sentinel-reachable-from-key:"+fnKey(g), p.InstrPos(ins), fmt.Sprintf("%s accepts index %d, which its siblings (bound %d) do not own: it is a sentinel ('before the first item'), and at %s %s — an integer key of that value, which lives in the hash part, is then taken for the sentinel: t = {1,2,3}; t[0] = 'x'; for k in pairs(t) do end restarts at the first array item for ever", fnKey(f), lb, common, where, bad))
+				}
+			})
+		}
+	}
+	r.count("array_sentinel_call_sites", nSent)
 	return r
 }
 
